@@ -659,6 +659,56 @@ pub fn through_decoder(prop: &str, rep: &mut Report, cube: &Cube, focus: &[KeyCo
             }
         }
     }
+    // a press of the key judged after EVERY count 1..n of changes since its first press (forks.rs): whatever period a stamp
+    // on a remembered look-up has – a power of ten, a prime, anything up to n – the step where it comes round is judged
+    {
+        use crate::forks::*;
+        let n_mods: u64 = if light() { 1 << 12 } else if rep.thorough() { 1 << 29 } else { 1 << 23 };
+        let n_lay: u64 = if light() { 1 << 10 } else if rep.thorough() { 1 << 26 } else { 1 << 21 };
+        let keys: Vec<KeyCode> = (0..2usize).map(|i| focus[((rep.seed as usize) + i * 7) % focus.len()]).collect();
+        let mut handles = Vec::new();
+        for (kn, key) in keys.iter().enumerate() {
+            let key = *key;
+            let li = ((rep.seed as usize) + kn * 3) % 10;
+            for held in [true, false] {
+                for shape in MOD_SHAPES {
+                    handles.push((key, format!("{:?}", shape), held, std::thread::spawn(move || guarded(|| every_count_mods(li, key, shape, held, n_mods)))));
+                }
+                let (b, c) = ((li + 1 + (rep.seed as usize) % 4) % 10, (li + 5 + (rep.seed as usize) % 4) % 10);
+                for shape in [Shape::LayoutSame(b), Shape::LayoutAlternate(b, c)] {
+                    handles.push((key, format!("{:?}", shape), held, std::thread::spawn(move || guarded(|| every_count_layouts(li, key, shape, held, kn % 2, n_lay)))));
+                }
+            }
+        }
+        let mut steps = 0u64;
+        for (key, shape, held, h) in handles {
+            let Some(ki) = cube.key_index(key) else { continue };
+            match h.join() {
+                Ok(Ok(obs)) => {
+                    for o in obs {
+                        presses += o.times;
+                        steps += o.times;
+                        if o.li >= cube.n_layouts {
+                            continue;
+                        }
+                        if let Some(want) = judge(cube, acc, o.li, key, ki, o.mods, o.mode, o.got, &mut judged) {
+                            let gs = if o.got == ENC_NONE { "None".to_string() } else { cube.show(o.got) };
+                            rep.violate(
+                                format!("{}|via-decoder|{}|key={:?}|want={}|got={}", prop, layout_name(o.li), key, want, gs),
+                                format!(
+                                    "{} through process_keyevent, a press judged after every count of changes (shape {}, key {}): {} changes after the first press of {:?}, with reported modifiers {} (Ctrl mode {}) it typed {}; the property requires {}",
+                                    layout_name(o.li), shape, if held { "held" } else { "released" }, o.first_step, key, mods_str(o.mods), mode_str(MODES[o.mode]), gs, want
+                                ),
+                                J::obj().with("kind", J::s("every-count")).with("shape", J::s(shape.clone())).with("held", J::Bool(held)).with("layout", J::s(layout_name(o.li))).with("key", J::s(kname(key))).with("changes", J::u(o.first_step)),
+                            );
+                        }
+                    }
+                }
+                _ => rep.count("via_decoder_histories_aborted_by_a_panic", 1),
+            }
+        }
+        rep.count("presses_judged_after_every_count_of_changes_(forked_object)", steps);
+    }
     // heavy typing, then a change of layout (EventDecoder<AnyLayout>): for each focus key K that two layouts A and B type
     // differently – tens of thousands of presses in alternating modifier contexts on A, K, as many presses again,
     // change_layout(B), K: what was typed on A, and how much of it, must not show on B
